@@ -524,6 +524,35 @@ def lemma_canonical_contiguity(w):
                                                      start(L, m) + dur == start(L + 1, 1))
 
 
+def _strict_mono(w):
+    i, k = z3.Ints('i!smono k!smono')
+    return z3.ForAll([i, k], z3.Implies(z3.And(0 <= i, i < k, k <= w['n']), w['S'](i) < w['S'](k)))
+
+
+def lemma_canonical_unique(w):
+    """C09 agreement: a start time determines the canonical segment (and hence its duration): two manifests that both
+    list a segment starting at t list the same (L, m), so the same duration d(m) (+ drift for m == n)."""
+    n, R, S = w['n'], w['R'], w['S']
+    L1, m1, L2, m2 = z3.Ints('L1 m1 L2 m2')
+    pc = [w['rep_valid'], R > 0, _strict_mono(w), S(n - 1) < R, 1 <= m1, m1 <= n, 1 <= m2, m2 <= n,
+          L1 * R + S(m1 - 1) == L2 * R + S(m2 - 1)]
+    a = z3.And(0 <= S(m1 - 1), S(m1 - 1) < R, 0 <= S(m2 - 1), S(m2 - 1) < R)
+    return [('a_offsets_inside_loop', pc, a), ('b_same_loop', pc + [a], L1 == L2),
+            ('c_same_segment', pc + [a, L1 == L2], m1 == m2)]
+
+
+def lemma_gsi_monotone(w):
+    """C09 the listed window only moves forward: get_segment_index is monotone in its argument
+    (tc1 <= tc2 => start1 <= start2), so a later firstAvailableTime never starts the timeline earlier."""
+    n, R, S, d, Lof = w['n'], w['R'], w['S'], w['d'], w['Lof']
+    tc1, tc2, m1, s1, o1, m2, s2, o2 = z3.Ints('tc1 tc2 m1 s1 o1 m2 s2 o2')
+    pc = [w['rep_valid'], R > 0, _strict_mono(w), S(n - 1) < R, 0 <= tc1, tc1 <= tc2] + \
+        _gsi_facts(w, tc1, m1, s1, o1) + _gsi_facts(w, tc2, m2, s2, o2)
+    a = z3.Implies(o1 > o2, o1 == o2 + R)       # both origins are multiples of R and tc1 <= tc2 < o2 + R
+    b = z3.And(0 <= s1 - o1, s1 - o1 < R, 0 <= s2 - o2, s2 - o2 < R)
+    return [('a_adjacent_loops', pc, a), ('b_offsets', pc, b), ('c_monotone', pc + [a, b], s1 <= s2)]
+
+
 def lemma_cross_track_alignment(w):
     """C02: when Rref*ts is a multiple of tsref the per-loop duration R of this track, in seconds, equals the
     reference duration exactly (R/ts == Rref/tsref), so tracks stay aligned after any number of loops."""
@@ -606,6 +635,8 @@ GROUP = Group(
         Lemma('mod_reference', ['C02'], lemma_mod_reference),
         Lemma('number_near', ['C02'], lemma_number_near),
         Lemma('canonical_contiguity', ['C02', 'C09'], lemma_canonical_contiguity),
+        Lemma('canonical_unique', ['C09'], lemma_canonical_unique),
+        Lemma('get_segment_index_monotone', ['C09'], lemma_gsi_monotone),
         Lemma('cross_track_alignment', ['C02'], lemma_cross_track_alignment),
         Lemma('cross_track_alignment_without_divisibility', ['C02'], lemma_cross_track_drift_canary, canary=True),
         Lemma('number_in_window_accepted', ['C01'], lemma_number_in_window_accepted),
